@@ -84,6 +84,22 @@ Packs / starts / search
     RULEDBS: {name: () -> fresh rule database}
     ALL_STRATEGIES() -> list of Strategy instances (non verification) ; closure(starts, strategies, limit)
     spec_check(spec, start, nmax) -> list of disagreement strings (count / terms vs brute force)
+
+Second universe: plane trees (separate from everything above: not in PACKS / START_CLASSES / ALL_STRATEGIES)
+    Tree                      str + CombinatorialObject: the preorder word of out-degrees ('200' = a root with two leaves)
+    TreeClass(degrees, roots=degrees, forbidden=())
+                              root degree in `roots`, other degrees in `degrees` (within 0..3), no (parent degree, child
+                              degree) in `forbidden`; size = number of nodes; TreeClass(d, (0,), f) = the single node
+    tree_brute_objects / tree_brute_count / tree_first_size / tree_truly_empty     library independent oracle
+    SplitRoot                 union by the degree of the root (children can be empty: a degree no finite tree can use)
+    RemoveRoot(atom_last)     product  node x subtree^r : the SAME child r times (keys with repeated labels)
+    PruneDegrees              single child, two-way: the class described without its unusable degrees
+    TreeLookAheadFactory      ready rules, including rules whose parent is a child of the expanded class
+    TREE_PACKS, TREE_STARTS(tier, seed), all_tree_classes(), tree_spec_check(spec, start, nmax),
+    tree_selfcheck(classes)   the harness' own classes (is_empty, minimum size, objects) against the oracle
+
+    CycleSymmetry(inverse)    words over a, b, c: the letter renaming a -> b -> c -> a, a symmetry of order three (the
+                              image of the image is not the class); classes without statistics
 """
 from __future__ import annotations
 
@@ -169,6 +185,25 @@ __all__ = [
     "VerifiedThroughFactor",
     "PrependStatFactory",
     "DUP_NAME",
+    "TREE_DEGREES",
+    "Tree",
+    "TreeClass",
+    "TREE_NODE",
+    "tree_class_from_repr",
+    "tree_brute_objects",
+    "tree_brute_count",
+    "tree_first_size",
+    "tree_truly_empty",
+    "SplitRoot",
+    "RemoveRoot",
+    "PruneDegrees",
+    "TreeLookAheadFactory",
+    "TREE_PACKS",
+    "all_tree_classes",
+    "TREE_STARTS",
+    "tree_spec_check",
+    "tree_selfcheck",
+    "CycleSymmetry",
 ]
 
 STAT_LETTER = {"na": "a", "nb": "b", "na2": "a", "nb2": "b"}
@@ -1850,3 +1885,620 @@ def closure(starts: Iterable[Av], strategies: Iterable, limit: int = 2000) -> Li
                         seen[child] = None
                         queue.append(child)
     return queue
+
+
+# --------------------------------------------------------------------------------------------------------------
+# A second tiny universe: plane trees.  Products with REPEATED factors (a node with r subtrees of one class), unions
+# whose children can be empty for a non-syntactic reason.  Used by single modules; not part of PACKS / START_CLASSES.
+# --------------------------------------------------------------------------------------------------------------
+
+TREE_DEGREES = (0, 1, 2, 3)
+
+
+def _subtree_end(word: str, start: int) -> int:
+    """Index just after the subtree whose root is the node at position `start` of a preorder degree word."""
+    need = 1
+    i = start
+    while need:
+        if i >= len(word):
+            raise ValueError("not the degree word of a tree")
+        need += int(word[i]) - 1
+        i += 1
+    return i
+
+
+class Tree(str, CombinatorialObject):
+    """A plane tree, written as the word of the out-degrees of its nodes in preorder: '200' is a root with two leaves,
+    '0' the single node.  Size = number of nodes = length of the word."""
+
+    def size(self) -> int:
+        return str.__len__(self)
+
+    def subtrees(self) -> Tuple["Tree", ...]:
+        res = []
+        i = 1
+        for _ in range(int(self[0])):
+            j = _subtree_end(self, i)
+            res.append(Tree(self[i:j]))
+            i = j
+        if i != len(self):
+            raise ValueError("not the degree word of a tree")
+        return tuple(res)
+
+
+class TreeClass(CombinatorialClass[Tree]):
+    """Plane trees whose root has out-degree in `roots`, whose other nodes have out-degree in `degrees`, and in which no
+    node of out-degree i has a child of out-degree j for (i, j) in `forbidden` (degrees within TREE_DEGREES; `roots`
+    defaults to `degrees`).  TreeClass(d, (0,), f) is the single node (an atom) whatever d and f."""
+
+    def __init__(self, degrees: Iterable[int], roots: Optional[Iterable[int]] = None, forbidden: Iterable = ()):
+        self.degrees: Tuple[int, ...] = tuple(sorted(set(int(d) for d in degrees)))
+        self.roots: Tuple[int, ...] = (
+            self.degrees if roots is None else tuple(sorted(set(int(r) for r in roots)))
+        )
+        self.forbidden: Tuple[Tuple[int, int], ...] = tuple(
+            sorted(set((int(i), int(j)) for i, j in forbidden))
+        )
+        used = set(self.degrees) | set(self.roots) | {x for e in self.forbidden for x in e}
+        if not used <= set(TREE_DEGREES):
+            raise ValueError("degrees must be within TREE_DEGREES")
+        self._key = (type(self).__name__, self.degrees, self.roots, self.forbidden)
+        self._hash = zlib.crc32(repr(self._key).encode())
+        self._gen_cache: Dict[Tuple[Tuple[int, ...], int], Tuple[str, ...]] = {}
+        super().__init__()
+
+    def key(self) -> tuple:
+        return self._key
+
+    def derive(self, **changes) -> "TreeClass":
+        fields = {"degrees": self.degrees, "roots": self.roots, "forbidden": self.forbidden}
+        fields.update(changes)
+        return type(self)(**fields)
+
+    def allowed_below(self, degree: int) -> Tuple[int, ...]:
+        """The out-degrees a child of a node of out-degree `degree` may have."""
+        return tuple(j for j in self.degrees if (degree, j) not in self.forbidden)
+
+    def feasible_degrees(self) -> Tuple[int, ...]:
+        """The d in `degrees` such that some finite tree of the class (with any root) has a non-root node ... i.e. such
+        that a finite tree with root degree d and all other nodes obeying the class exists (least fixed point)."""
+        feas: set = set()
+        while True:
+            new = {
+                d
+                for d in self.degrees
+                if d == 0 or any(j in feas for j in self.allowed_below(d))
+            }
+            if new == feas:
+                return tuple(sorted(feas))
+            feas = new
+
+    def feasible_roots(self) -> Tuple[int, ...]:
+        feas = set(self.feasible_degrees())
+        return tuple(
+            r for r in self.roots if r == 0 or any(j in feas for j in self.allowed_below(r))
+        )
+
+    # ---- exploration -------------------------------------------------------------------------------------
+
+    def is_empty(self) -> bool:
+        return not self.feasible_roots()
+
+    def is_atom(self) -> bool:
+        return self.roots == (0,)
+
+    def minimum_size_of_object(self) -> int:
+        """Shortest-tree sizes by relaxation (a tree of minimum size repeats the smallest subtree)."""
+        best: Dict[int, int] = {}
+        for _ in range(len(self.degrees) + 1):
+            for d in self.degrees:
+                if d == 0:
+                    best[d] = 1
+                    continue
+                below = [best[j] for j in self.allowed_below(d) if j in best]
+                if below:
+                    best[d] = 1 + d * min(below)
+        sizes = []
+        for r in self.roots:
+            if r == 0:
+                sizes.append(1)
+                continue
+            below = [best[j] for j in self.allowed_below(r) if j in best]
+            if below:
+                sizes.append(1 + r * min(below))
+        if not sizes:
+            raise ValueError("the class is empty")
+        return min(sizes)
+
+    def _generate(self, roots: Tuple[int, ...], n: int) -> Tuple[str, ...]:
+        """Degree words of the trees of size n with root degree in `roots` (top-down, by compositions)."""
+        key = (roots, n)
+        if key in self._gen_cache:
+            return self._gen_cache[key]
+        res: List[str] = []
+        for r in roots:
+            if r == 0:
+                if n == 1:
+                    res.append("0")
+                continue
+            if n < r + 1:
+                continue
+            below = self.allowed_below(r)
+            # sequences of r subtrees of total size n - 1
+            stack = [("", n - 1, r)]
+            while stack:
+                word, left, todo = stack.pop()
+                if todo == 0:
+                    if left == 0:
+                        res.append(str(r) + word)
+                    continue
+                for k in range(1, left - (todo - 1) + 1):
+                    for sub in self._generate(below, k):
+                        stack.append((word + sub, left - k, todo - 1))
+        out = tuple(sorted(res))
+        self._gen_cache[key] = out
+        return out
+
+    def objects_of_size(self, n: int, **parameters: int) -> Iterator[Tree]:
+        assert not parameters
+        for word in self._generate(self.roots, n):
+            yield Tree(word)
+
+    # ---- serialisation -----------------------------------------------------------------------------------
+
+    def to_jsonable(self) -> dict:
+        d = super().to_jsonable()
+        d["degrees"] = list(self.degrees)
+        d["roots"] = list(self.roots)
+        d["forbidden"] = [list(e) for e in self.forbidden]
+        return d
+
+    @classmethod
+    def from_dict(cls, d: dict) -> "TreeClass":
+        return cls(d["degrees"], d["roots"], [tuple(e) for e in d["forbidden"]])
+
+    def __eq__(self, other: object) -> bool:
+        if not isinstance(other, TreeClass):
+            return NotImplemented
+        return self._key == other._key
+
+    def __hash__(self) -> int:
+        return self._hash
+
+    def __repr__(self) -> str:
+        return f"{type(self).__name__}({self.degrees!r}, {self.roots!r}, {self.forbidden!r})"
+
+    def __str__(self) -> str:
+        avoid = "".join(f", no {j}-node under a {i}-node" for i, j in self.forbidden)
+        if self.roots == (0,):
+            return "The single node"
+        return f"Plane trees with root degree in {set(self.roots) or '{}'}, other degrees in {set(self.degrees) or '{}'}{avoid}"
+
+    def short(self) -> str:
+        return repr(self)
+
+
+TREE_NODE = TreeClass((), (0,), ())
+
+
+def tree_class_from_repr(text: str) -> TreeClass:
+    """Inverse of repr (used by replay)."""
+    return eval(text, {"TreeClass": TreeClass})  # pylint: disable=eval-used
+
+
+def _tree_words(
+    degrees: Tuple[int, ...],
+    roots: Tuple[int, ...],
+    forbidden: Tuple[Tuple[int, int], ...],
+    n: int,
+) -> Iterator[str]:
+    """Oracle (no library code, no class of this module): the words of length n over the digits, written letter by
+    letter, that are the preorder degree word of ONE tree with root degree in `roots`, other degrees in `degrees` and no
+    forbidden (parent degree, child degree).  A prefix is abandoned as soon as it cannot be completed: more children
+    promised than letters left, or the tree closed before the last letter."""
+    if n < 1:
+        return
+    word: List[int] = []
+    # for every node still waiting for children: [its degree, children still missing]
+    waiting: List[List[int]] = []
+
+    def extend(promised: int) -> Iterator[str]:
+        left = n - len(word)
+        if left == 0:
+            if promised == 0:
+                yield "".join(map(str, word))
+            return
+        if word and promised == 0:
+            return  # the tree is complete, a second one would start
+        for d in roots if not word else degrees:
+            if word and (waiting[-1][0], d) in forbidden:
+                continue
+            new_promised = promised - (1 if word else 0) + d
+            if new_promised > left - 1:
+                continue
+            popped = None
+            if word:
+                waiting[-1][1] -= 1
+                if waiting[-1][1] == 0:
+                    popped = waiting.pop()
+            if d:
+                waiting.append([d, d])
+            word.append(d)
+            yield from extend(new_promised)
+            word.pop()
+            if d:
+                waiting.pop()
+            if popped is not None:
+                waiting.append(popped)
+            if word:
+                waiting[-1][1] += 1
+
+    yield from extend(0)
+
+
+@lru_cache(maxsize=None)
+def _tree_brute(
+    degrees: Tuple[int, ...],
+    roots: Tuple[int, ...],
+    forbidden: Tuple[Tuple[int, int], ...],
+    n: int,
+) -> Tuple[str, ...]:
+    return tuple(_tree_words(degrees, roots, forbidden, n))
+
+
+def tree_brute_objects(cls: TreeClass, n: int) -> List[str]:
+    return list(_tree_brute(cls.degrees, cls.roots, cls.forbidden, n))
+
+
+def tree_brute_count(cls: TreeClass, n: int) -> int:
+    return len(_tree_brute(cls.degrees, cls.roots, cls.forbidden, n))
+
+
+# a smallest tree never repeats a degree along a branch below the root: at most 1 + 3 * (1 + 2 * (1 + 1)) nodes
+TREE_EMPTY_HORIZON = 16
+
+
+@lru_cache(maxsize=None)
+def _tree_first_size(
+    degrees: Tuple[int, ...], roots: Tuple[int, ...], forbidden: Tuple[Tuple[int, int], ...]
+) -> Optional[int]:
+    for n in range(1, TREE_EMPTY_HORIZON + 1):
+        if next(_tree_words(degrees, roots, forbidden, n), None) is not None:
+            return n
+    return None
+
+
+def tree_first_size(cls: TreeClass) -> Optional[int]:
+    """Size of a smallest tree of the class by brute force, None if there is none up to TREE_EMPTY_HORIZON."""
+    return _tree_first_size(cls.degrees, cls.roots, cls.forbidden)
+
+
+def tree_truly_empty(cls: TreeClass) -> bool:
+    return tree_first_size(cls) is None
+
+
+class SplitRoot(DisjointUnionStrategy[TreeClass, Tree]):
+    """By the out-degree of the root (a class with at least two possible root degrees).  Children can be empty: a root
+    degree all of whose admissible subtrees are infinite."""
+
+    def decomposition_function(self, comb_class: TreeClass) -> Optional[Tuple[TreeClass, ...]]:
+        if len(comb_class.roots) < 2:
+            return None
+        return tuple(comb_class.derive(roots=(r,)) for r in comb_class.roots)
+
+    def formal_step(self) -> str:
+        return "split by the out-degree of the root"
+
+    def forward_map(self, comb_class, obj, children=None):
+        idx = comb_class.roots.index(int(obj[0]))
+        return tuple(Tree(obj) if i == idx else None for i in range(len(comb_class.roots)))
+
+    @classmethod
+    def from_dict(cls, d: dict) -> "SplitRoot":
+        return cls(**d)
+
+    def __repr__(self) -> str:
+        return "SplitRoot()"
+
+
+class RemoveRoot(CartesianProductStrategy[TreeClass, Tree]):
+    """A class with one possible root degree r >= 1:  the root node x r subtrees, all r of ONE class (repeated factor).
+    atom_last: the node is listed after the subtrees instead of before."""
+
+    def __init__(
+        self,
+        ignore_parent: bool = True,
+        inferrable: bool = False,
+        possibly_empty: bool = False,
+        workable: bool = True,
+        atom_last: bool = False,
+    ):
+        super().__init__(
+            ignore_parent=ignore_parent,
+            inferrable=inferrable,
+            possibly_empty=possibly_empty,
+            workable=workable,
+        )
+        self.atom_last = bool(atom_last)
+
+    def decomposition_function(self, comb_class: TreeClass) -> Optional[Tuple[TreeClass, ...]]:
+        if len(comb_class.roots) != 1 or comb_class.roots[0] == 0 or comb_class.is_empty():
+            return None
+        r = comb_class.roots[0]
+        sub = comb_class.derive(roots=comb_class.allowed_below(r))
+        if self.atom_last:
+            return (sub,) * r + (TREE_NODE,)
+        return (TREE_NODE,) + (sub,) * r
+
+    def formal_step(self) -> str:
+        return "remove the root" + (" (node last)" if self.atom_last else "")
+
+    def backward_map(self, comb_class, objs, children=None):
+        assert all(o is not None for o in objs)
+        subs = objs[:-1] if self.atom_last else objs[1:]
+        yield Tree(str(len(subs)) + "".join(subs))
+
+    def forward_map(self, comb_class, obj, children=None):
+        subs = Tree(obj).subtrees()
+        if self.atom_last:
+            return subs + (Tree("0"),)
+        return (Tree("0"),) + subs
+
+    def to_jsonable(self) -> dict:
+        d = super().to_jsonable()
+        d["atom_last"] = self.atom_last
+        return d
+
+    @classmethod
+    def from_dict(cls, d: dict) -> "RemoveRoot":
+        return cls(**d)
+
+    def __repr__(self) -> str:
+        return f"RemoveRoot(atom_last={self.atom_last})"
+
+
+class PruneDegrees(DisjointUnionStrategy[TreeClass, Tree]):
+    """Single child, two-way: the same trees described without the degrees no finite tree can use (infeasible degrees
+    and root degrees, and the forbidden pairs mentioning a removed degree)."""
+
+    def __init__(
+        self,
+        ignore_parent: bool = True,
+        inferrable: bool = True,
+        possibly_empty: bool = False,
+        workable: bool = True,
+    ):
+        super().__init__(
+            ignore_parent=ignore_parent,
+            inferrable=inferrable,
+            possibly_empty=possibly_empty,
+            workable=workable,
+        )
+
+    def decomposition_function(self, comb_class: TreeClass) -> Optional[Tuple[TreeClass, ...]]:
+        if comb_class.is_empty() or comb_class.is_atom():
+            return None
+        degrees = comb_class.feasible_degrees()
+        roots = comb_class.feasible_roots()
+        kept = set(degrees) | set(roots)
+        forbidden = tuple((i, j) for i, j in comb_class.forbidden if i in kept and j in degrees)
+        child = TreeClass(degrees, roots, forbidden)
+        if child == comb_class:
+            return None
+        return (child,)
+
+    def formal_step(self) -> str:
+        return "forget the degrees no finite tree can use"
+
+    def forward_map(self, comb_class, obj, children=None):
+        return (Tree(obj),)
+
+    @classmethod
+    def from_dict(cls, d: dict) -> "PruneDegrees":
+        return cls(**d)
+
+    def __repr__(self) -> str:
+        return "PruneDegrees()"
+
+
+class TreeLookAheadFactory(StrategyFactory[TreeClass]):
+    """Yields ready rules: the root split of the class and the root removal of each of its non-empty children (rules
+    whose parent is a child of the class being expanded); the root removal of the class itself when it applies."""
+
+    def __call__(self, comb_class: TreeClass):
+        split, remove = SplitRoot(), RemoveRoot()
+        if remove.decomposition_function(comb_class) is not None:
+            yield remove(comb_class)
+        children = split.decomposition_function(comb_class)
+        if children is None:
+            return
+        yield split(comb_class)
+        for child in children:
+            if remove.decomposition_function(child) is not None:
+                yield remove(child)
+
+    def __str__(self) -> str:
+        return "TreeLookAheadFactory"
+
+    def __repr__(self) -> str:
+        return "TreeLookAheadFactory()"
+
+    @classmethod
+    def from_dict(cls, d: dict):
+        return cls()
+
+
+TREE_PACKS: Dict[str, Callable[[], StrategyPack]] = {
+    "tree": lambda: _pack("tree", [], [], [[SplitRoot(), RemoveRoot()]], [AtomStrategy()]),
+    "tree-initial": lambda: _pack("tree-initial", [RemoveRoot()], [], [[SplitRoot()]], [AtomStrategy()]),
+    "tree-atomlast": lambda: _pack(
+        "tree-atomlast", [RemoveRoot(atom_last=True)], [], [[SplitRoot()]], [AtomStrategy()]
+    ),
+    "tree-prune": lambda: _pack(
+        "tree-prune", [RemoveRoot()], [PruneDegrees()], [[SplitRoot()]], [AtomStrategy()]
+    ),
+    "tree-factory": lambda: _pack("tree-factory", [], [], [[TreeLookAheadFactory()]], [AtomStrategy()]),
+}
+
+_TREE_QUICK = [
+    ((0, 2), None, ()),  # binary trees by nodes
+    ((0, 1), None, ()),  # paths
+    ((0, 3), None, ()),
+    ((0, 1, 2), None, ()),  # Motzkin trees
+    ((0, 2, 3), None, ()),
+    ((0, 1, 2, 3), None, ()),
+    ((0, 2), (2,), ()),
+    ((0, 1, 2), (1, 2), ()),
+    ((0, 1, 2), (3,), ()),
+    ((0, 2), None, ((2, 2),)),  # finite
+    ((0, 1, 2), None, ((1, 1),)),
+    ((0, 1, 2), None, ((2, 0),)),
+    ((0, 1, 2), None, ((1, 0), (1, 2))),  # no finite tree has a unary node
+    ((0, 2, 3), None, ((3, 0), (3, 3))),
+    ((0, 2, 3), None, ((2, 2), (3, 3))),
+    ((0, 1, 2, 3), None, ((1, 0), (1, 2), (1, 3), (3, 0), (3, 3))),  # below a 3-node: unary (infeasible) or binary
+    ((0, 1, 2, 3), (3,), ((1, 0), (1, 2), (1, 3), (3, 0), (3, 3))),
+    ((0, 1, 3), (1, 3), ((1, 0), (3, 3))),
+    ((1, 2), None, ()),  # empty
+    ((1, 2), (0, 2), ()),  # only the single node
+    ((0,), (0, 3), ()),
+    ((0, 2), None, ((2, 0),)),  # only the single node: a binary node needs binary children for ever
+]
+
+
+def all_tree_classes() -> List[TreeClass]:
+    """degrees containing 0 (plus two without), roots = degrees or a non-empty subset of TREE_DEGREES of size <= 2,
+    <= 3 forbidden pairs among the degrees."""
+    res = []
+    subsets = [s for k in range(1, 5) for s in itertools.combinations(TREE_DEGREES, k)]
+    for degrees in subsets:
+        if 0 not in degrees and degrees not in ((1, 2), (2,)):
+            continue
+        pairs = [(i, j) for i in degrees if i for j in degrees]
+        forb_sets = [()] + [(p,) for p in pairs]
+        forb_sets += list(itertools.combinations(pairs, 2)) + list(itertools.combinations(pairs, 3))
+        root_sets = [None] + [s for s in subsets if len(s) <= 2]
+        for forbidden in forb_sets:
+            for roots in root_sets:
+                res.append(TreeClass(degrees, roots, forbidden))
+    return res
+
+
+def TREE_STARTS(tier: str = "quick", seed: int = 0) -> List[TreeClass]:
+    """quick: the fixed list; thorough: these plus a seeded sample of 200 of `all_tree_classes()`."""
+    quick = [TreeClass(d, r, f) for d, r, f in _TREE_QUICK]
+    if tier == "quick":
+        return quick
+    rng = _random.Random(seed)
+    seen = set(quick)
+    res = list(quick)
+    for c in rng.sample(all_tree_classes(), 200):
+        if c not in seen:
+            seen.add(c)
+            res.append(c)
+    return res
+
+
+def tree_spec_check(spec, start: TreeClass, nmax: int) -> List[str]:
+    """Counts (and, up to size 5, the generated objects) of a specification against brute force."""
+    problems = []
+    for n in range(nmax + 1):
+        truth = tree_brute_objects(start, n)
+        c = spec.count_objects_of_size(n)
+        if c != len(truth):
+            problems.append(f"count_objects_of_size({n}) = {c} expected {len(truth)}")
+        if n <= 5:
+            got = sorted(str(o) for o in spec.generate_objects_of_size(n))
+            if got != sorted(truth):
+                problems.append(f"generate_objects_of_size({n}) = {got[:6]}.. expected {sorted(truth)[:6]}..")
+    return problems
+
+
+def tree_selfcheck(classes: Iterable[TreeClass], nmax: int = 6) -> List[str]:
+    """The harness' own classes against the brute-force oracle: is_empty, minimum size, objects_of_size."""
+    problems = []
+    for c in classes:
+        empty = tree_truly_empty(c)
+        if c.is_empty() != empty:
+            problems.append(f"{c!r}: is_empty {c.is_empty()} but brute force says {empty}")
+            continue
+        if empty:
+            continue
+        first = tree_first_size(c)
+        if c.minimum_size_of_object() != first:
+            problems.append(f"{c!r}: minimum size {c.minimum_size_of_object()} but brute force says {first}")
+        for n in range(nmax + 1):
+            if sorted(map(str, c.objects_of_size(n))) != sorted(tree_brute_objects(c, n)):
+                problems.append(f"{c!r}: objects_of_size({n}) differs from brute force")
+    return problems
+
+
+# --------------------------------------------------------------------------------------------------------------
+# A symmetry that is not an involution (used by single modules; not part of PACKS / ALL_STRATEGIES)
+# --------------------------------------------------------------------------------------------------------------
+
+_CYCLE = str.maketrans("abc", "bca")
+_UNCYCLE = str.maketrans("abc", "cab")
+
+
+class CycleSymmetry(SymmetryStrategy[Av, Word]):
+    """Rename the letters a -> b -> c -> a everywhere (prefix, patterns, alphabet); inverse=True: the other way round.
+    A symmetry of order three: applying it to the image of a class does not give the class back, so a pack listing only
+    this generator never produces the rule  image -> class  as a forward rule.  Classes without statistics only (there is
+    no statistic counting the letter c)."""
+
+    def __init__(
+        self,
+        ignore_parent: bool = False,
+        inferrable: bool = False,
+        possibly_empty: bool = False,
+        workable: bool = False,
+        inverse: bool = False,
+    ):
+        super().__init__(
+            ignore_parent=ignore_parent,
+            inferrable=inferrable,
+            possibly_empty=possibly_empty,
+            workable=workable,
+        )
+        self.inverse = bool(inverse)
+
+    def _table(self, back: bool = False):
+        return _UNCYCLE if self.inverse != back else _CYCLE
+
+    def decomposition_function(self, comb_class: Av) -> Optional[Tuple[Av, ...]]:
+        if comb_class.is_empty() or comb_class.stats:
+            return None
+        t = self._table()
+        return (
+            comb_class.derive(
+                prefix=comb_class.prefix.translate(t),
+                patterns=tuple(p.translate(t) for p in comb_class.patterns),
+                alphabet=tuple(x.translate(t) for x in comb_class.alphabet),
+            ),
+        )
+
+    def extra_parameters(self, comb_class, children=None):
+        return ({},)
+
+    def formal_step(self) -> str:
+        return "rename the letters c -> b -> a -> c" if self.inverse else "rename the letters a -> b -> c -> a"
+
+    def forward_map(self, comb_class, obj, children=None):
+        return (Word(obj.translate(self._table())),)
+
+    def backward_map(self, comb_class, objs, children=None):
+        assert objs[0] is not None
+        yield Word(objs[0].translate(self._table(back=True)))
+
+    def to_jsonable(self) -> dict:
+        d = super().to_jsonable()
+        d["inverse"] = self.inverse
+        return d
+
+    @classmethod
+    def from_dict(cls, d: dict) -> "CycleSymmetry":
+        return cls(**d)
+
+    def __repr__(self) -> str:
+        return f"CycleSymmetry(inverse={self.inverse})"
